@@ -176,7 +176,15 @@ fn gen_query_coord(rng: &mut Rng, p: &Patch, anchors: &[(f32, f32)]) -> ((f64, f
         }
         _ => {
             // outside the WGS84 range: haversine refuses these
-            if rng.chance(1, 2) {
+            if rng.chance(1, 4) {
+                // beyond the f32 range: the coordinate becomes ±infinity
+                let big = *rng.pick(&[3.5e38, -3.5e38, 1.0e300, -1.0e39, 1.0e20]);
+                if rng.chance(1, 2) {
+                    ((big, rng.uniform(-90.0, 90.0)), "q_extreme")
+                } else {
+                    ((rng.uniform(-180.0, 180.0), big), "q_extreme")
+                }
+            } else if rng.chance(1, 2) {
                 ((rng.uniform(180.5, 400.0) * if rng.chance(1, 2) { 1.0 } else { -1.0 }, rng.uniform(-90.0, 90.0)), "q_out_of_range")
             } else {
                 ((rng.uniform(-180.0, 180.0), rng.uniform(90.5, 200.0) * if rng.chance(1, 2) { 1.0 } else { -1.0 }), "q_out_of_range")
@@ -737,13 +745,17 @@ fn ecands_tokens(s: &Option<EScan>) -> String {
         None => "n".into(),
         Some(s) => {
             let mut out = format!("s {}", s.cands.len());
-            for (id, d2, cls, veh, _) in &s.cands {
+            for (id, d2, cls, veh, gc) in &s.cands {
                 out.push_str(&format!(" {} {} ", id, fbits(*d2 as f64)));
                 match cls {
                     None => out.push('n'),
                     Some(k) => out.push_str(&format!("s {}", k)),
                 }
-                out.push_str(if *veh { " 1" } else { " 0" });
+                out.push_str(if *veh { " 1 " } else { " 0 " });
+                match gc {
+                    None => out.push('n'),
+                    Some(g) => out.push_str(&format!("s {}", fbits(*g))),
+                }
             }
             out
         }
